@@ -45,11 +45,12 @@ Record state := mkState {
   done_closed : bool;      (* close(done) happened *)
   it : intr;               (* interrupter goroutine / interruptRes *)
   p : pc;
-  ret : option result
+  ret : option result;
+  reneg : bool             (* ghost: the peer has started a renegotiation (TLS <= 1.2 HelloRequest) at some point *)
 }.
 
 Definition init (cn : bool) (mu il : owner) (co he cl ca : bool) : state :=
-  mkState mu il co he cl cn ca false INone P0 None.
+  mkState mu il co he cl cn ca false INone P0 None false.
 
 Inductive label :=
 | LC                       (* next statement of the caller *)
@@ -57,10 +58,11 @@ Inductive label :=
 | LIFire | LIDone          (* interrupter: select on handshakeCtx.Done() / done, u_conn.go:350-357 *)
 | LCancel                  (* environment: this caller's ctx is cancelled *)
 | EAcquire | ERelease | EInAcquire | EInRelease | EBodyOk | EBodyErr | ECloseConn
-| EReadPark | EReadWake.   (* a reader whose (implicit) Handshake has returned nil enters / leaves Read *)
+| EReadPark | EReadWake    (* a reader whose (implicit) Handshake has returned nil enters / leaves Read *)
+| ERenegStart.             (* that reader receives a HelloRequest: UConn.handleRenegotiation, u_conn.go:986-1031 *)
 
 Definition upd (s : state) (mu il : owner) (co he cl : bool) (dc : bool) (i : intr) (q : pc) (r : option result) : state :=
-  mkState mu il co he cl (cancellable s) (cancelled s) dc i q r.
+  mkState mu il co he cl (cancellable s) (cancelled s) dc i q r (reneg s).
 Definition goto (s : state) (q : pc) : state :=
   upd s (mutex s) (inl s) (complete s) (hs_err s) (conn_closed s) (done_closed s) (it s) q (ret s).
 Definition goto_ret (s : state) (q : pc) (r : result) : state :=
@@ -115,7 +117,7 @@ Definition step (s : state) (l : label) : option state :=
                          else None
               | _ => None end
   | LCancel => if cancellable s
-               then Some (mkState (mutex s) (inl s) (complete s) (hs_err s) (conn_closed s) (cancellable s) true (done_closed s) (it s) (p s) (ret s))
+               then Some (mkState (mutex s) (inl s) (complete s) (hs_err s) (conn_closed s) (cancellable s) true (done_closed s) (it s) (p s) (ret s) (reneg s))
                else None
   | EAcquire => match mutex s with
                 | Free => Some (upd s Others (inl s) (complete s) (hs_err s) (conn_closed s) (done_closed s) (it s) (p s) (ret s))
@@ -145,16 +147,24 @@ Definition step (s : state) (l : label) : option state :=
   | EReadWake => match inl s with
                  | Parked => Some (upd s (mutex s) Free (complete s) (hs_err s) (conn_closed s) (done_closed s) (it s) (p s) (ret s))
                  | _ => None end
+  (* handleRenegotiation runs inside Read, i.e. with the input lock held: it takes handshakeMutex and only then clears
+     isHandshakeComplete (u_conn.go:1020-1023); the reader now is a handshake holder of both locks and runs the body *)
+  | ERenegStart => match inl s, mutex s with
+                   | Parked, Free => if complete s && negb (hs_err s)
+                                     then Some (mkState Others Others false (hs_err s) (conn_closed s) (cancellable s) (cancelled s)
+                                                        (done_closed s) (it s) (p s) (ret s) true)
+                                     else None
+                   | _, _ => None end
   end.
 
 Definition all_labels : list label :=
   [LC; LBodyOk; LBodyErr; LBuildErr; LIFire; LIDone; LCancel; EAcquire; ERelease; EInAcquire; EInRelease; EBodyOk; EBodyErr; ECloseConn;
-   EReadPark; EReadWake].
+   EReadPark; EReadWake; ERenegStart].
 Definition enabledb (s : state) (l : label) : bool := match step s l with Some _ => true | None => false end.
 (* progress may not rely on a cancellation, on a new lock acquisition by others, on Close, or on a parked reader
    being woken (that needs data from the peer, which may itself be waiting for this side to write) *)
 Definition progress_label (l : label) : bool :=
-  match l with LCancel | EAcquire | EInAcquire | ECloseConn | EReadPark | EReadWake => false | _ => true end.
+  match l with LCancel | EAcquire | EInAcquire | ECloseConn | EReadPark | EReadWake | ERenegStart => false | _ => true end.
 Definition can_progress (s : state) : bool := existsb (fun l => progress_label l && enabledb s l) all_labels.
 Definition returned (s : state) : bool := match p s with PRet => true | _ => false end.
 
@@ -167,9 +177,10 @@ Definition touches_in (q : pc) : bool := match q with P5 | P6 => true | _ => fal
 Definition shared (s : state) := (mutex s, inl s, complete s, hs_err s, conn_closed s).
 
 (* what a returned caller may report, given the final shared state (the runner's oracle) *)
-Definition outcome_ok (r : result) (co he cl ca : bool) : bool :=
+(* rn: a renegotiation has been started by the peer (it clears isHandshakeComplete again) *)
+Definition outcome_ok (r : result) (co he cl ca rn : bool) : bool :=
   match r with
-  | RNil => co
+  | RNil => co || rn
   | RHsErr => he && negb co
   | RBuildErr => true
   | RCtx => cl && ca
@@ -191,6 +202,8 @@ Definition env_allows (a b : owner * owner * bool * bool * bool) : bool :=
   (* the body, under both locks, when no result exists *)
   || owner_eqb mu Others && owner_eqb il Others && owner_eqb mu' Others && owner_eqb il' Others && negb co && negb he
      && (co' && negb he' || negb co' && he') && eqb cl cl'
+  (* a parked reader starts a renegotiation: takes the mutex, clears complete *)
+  || owner_eqb mu Free && owner_eqb il Parked && co && negb he && owner_eqb mu' Others && owner_eqb il' Others && negb co' && negb he' && eqb cl cl'
   (* closing the connection *)
   || owner_eqb mu mu' && owner_eqb il il' && eqb co co' && eqb he he' && negb cl && cl').
 
